@@ -146,6 +146,14 @@ where
     /// ```
     pub fn find(&self, prefix: P) -> Option<TrieView<'a, P, T>> {
         let mut idx = self.loc.idx();
+        // if `prefix` lies above the top-most node of this view, everything in the view is
+        // contained within `prefix` (the descent below only handles prefixes inside that node).
+        if prefix.contains(&self.table[idx].prefix) && !prefix.eq(&self.table[idx].prefix) {
+            return Some(Self {
+                table: self.table,
+                loc: ViewLoc::Virtual(prefix, idx),
+            });
+        }
         loop {
             match self.table.get_direction_for_insert(idx, &prefix) {
                 DirectionForInsert::Enter { next, .. } => {
@@ -698,6 +706,12 @@ where
         // is still not covered by any other view), while dropping `self`.
 
         let mut idx = self.loc.idx();
+        // if `prefix` lies above the top-most node of this view, everything in the view is
+        // contained within `prefix` (the descent below only handles prefixes inside that node).
+        if prefix.contains(&self.table[idx].prefix) && !prefix.eq(&self.table[idx].prefix) {
+            let new_loc = ViewLoc::Virtual(prefix, idx);
+            return unsafe { Ok(Self::new(self.table, new_loc)) };
+        }
         loop {
             match self.table.get_direction_for_insert(idx, &prefix) {
                 DirectionForInsert::Enter { next, .. } => {
